@@ -67,6 +67,33 @@ def list_of(eng, v, line):
     raise Unsupported(f'list() of {type(v).__name__} at line {line}')
 
 
+def flatten_values(eng, d, line):
+    """sum(d.values(), []) for a dict of lists: a fresh list whose members are exactly the members of the lists stored
+    in d (over-approximation: order and multiplicities of the concatenation are left unspecified)"""
+    ety = d.vty.t
+    has, val = eng.dict_has(d)[1][d.ref], eng.dict_val(d)[1][d.ref]
+    r = eng.alloc('list')
+    nl = ListV(r, ety)
+    length = eng.run.fresh('flatlen', I)
+    eng.run.assume(length >= 0, silent=True)
+    ln = eng.heap.get('L.len', arr(Ref, I))
+    eng.heap.set('L.len', z3.Store(ln, r, length))
+    name, da = eng.list_data(nl)
+    row = eng.run.fresh('flat', arr(I, sort_of(ety)))
+    eng.heap.set(name, z3.Store(da, r, row))
+    sub = ListV(None, ety, d.heap)
+    sda = eng.list_data(sub)[1]
+    sln = eng.H(d).get('L.len', arr(Ref, I))
+    i, j = z3.Const('i!fl', I), z3.Const('j!fl', I)
+    k = z3.Const('k!fl', sort_of(d.kty))
+    inner = lambda kk, jj: z3.And(has[kk], 0 <= jj, jj < sln[val[kk]])
+    eng.run.assume(z3.ForAll([i], z3.Implies(z3.And(0 <= i, i < length),
+                                             z3.Exists([k, j], z3.And(inner(k, j), sda[val[k]][j] == row[i])))), silent=True)
+    eng.run.assume(z3.ForAll([k, j], z3.Implies(inner(k, j),
+                                                z3.Exists([i], z3.And(0 <= i, i < length, row[i] == sda[val[k]][j])))), silent=True)
+    return nl
+
+
 def _key_of(eng, key, val, line):
     if key is None:
         return val
